@@ -62,6 +62,7 @@ fn main() {
     let opts = Opts { id: id.clone(), tier, seed, replay, root, threads, scale, no_evidence, bytes_inputs: vec![] };
     let code = match id.as_str() {
         "C06" => run_check::<engines::kv::KvCheck>(opts),
+        "C07" => run_check::<engines::prefix::PrefixCheck>(opts),
         _ => {
             eprintln!("unknown property id {}", id);
             2
